@@ -12,8 +12,8 @@ import (
 	"encoding/json"
 	"fmt"
 	"os"
-	"regexp"
 	"path/filepath"
+	"regexp"
 	"runtime"
 	"sort"
 	"strings"
@@ -35,10 +35,36 @@ var r *ev.Run
 
 // ---- harness-owned clock
 type hclock struct {
-	clock.Clock // unimplemented methods panic: the dispatcher uses Now and Ticker only
-	now         time.Time
-	tickers     []*htick
-	reads       uint64
+	now     time.Time
+	tickers []*htick
+	reads   uint64
+	// every clock method other than Now / Ticker / Since / Until is served by a mock clock that is created on
+	// first use and kept at the harness's time (the unchanged dispatcher uses Now and Ticker only; a changed one
+	// may arm timers)
+	mock *clock.Mock
+}
+
+func (h *hclock) m() *clock.Mock {
+	if h.mock == nil {
+		h.mock = clock.NewMock()
+		h.mock.Set(h.now)
+	}
+	return h.mock
+}
+func (h *hclock) Since(t time.Time) time.Duration        { return h.now.Sub(t) }
+func (h *hclock) Until(t time.Time) time.Duration        { return t.Sub(h.now) }
+func (h *hclock) After(d time.Duration) <-chan time.Time { return h.m().After(d) }
+func (h *hclock) AfterFunc(d time.Duration, f func()) *clock.Timer {
+	return h.m().AfterFunc(d, f)
+}
+func (h *hclock) Sleep(d time.Duration)                 { h.m().Sleep(d) }
+func (h *hclock) Tick(d time.Duration) <-chan time.Time { return h.m().Tick(d) }
+func (h *hclock) Timer(d time.Duration) *clock.Timer    { return h.m().Timer(d) }
+func (h *hclock) WithDeadline(ctx context.Context, t time.Time) (context.Context, context.CancelFunc) {
+	return h.m().WithDeadline(ctx, t)
+}
+func (h *hclock) WithTimeout(ctx context.Context, d time.Duration) (context.Context, context.CancelFunc) {
+	return h.m().WithTimeout(ctx, d)
 }
 
 type htick struct {
@@ -88,7 +114,7 @@ type config struct {
 	Name     string         `json:"name"`
 	Caps     map[uint16]int `json:"queue_capacities"`
 	Alphabet []event        `json:"alphabet"`
-	Phase    int            `json:"initial_advance_sec"` // shifts the first request relative to the purge ticker
+	Phase    int            `json:"initial_advance_sec"`   // shifts the first request relative to the purge ticker
 	AgeCap   int            `json:"age_cap_sec,omitempty"` // long-horizon configs: ages above the cap are merged in the state key
 	Depth    int            `json:"depth,omitempty"`
 	Prefix   []int          `json:"prefix,omitempty"` // the search of this config is rooted after these events (sharding)
@@ -179,6 +205,24 @@ func (s *sys) advance(d time.Duration, hist []int) {
 			if !t.next.After(target) && (nt == nil || t.next.Before(nt.next)) {
 				nt = t
 			}
+		}
+		if s.clk.mock != nil {
+			// timers armed on the mock clock: move in steps of at most a minute so that they fire close to their
+			// nominal time (a timer firing a little late is legal behaviour of any clock)
+			step := s.clk.now.Add(time.Minute)
+			if step.After(target) {
+				step = target
+			}
+			if nt == nil || step.Before(nt.next) {
+				if !step.After(s.clk.now) {
+					break
+				}
+				s.clk.now = step
+				s.clk.mock.Set(step)
+				s.quiesce(hist)
+				continue
+			}
+			s.clk.mock.Set(nt.next)
 		}
 		if nt == nil {
 			break
